@@ -77,7 +77,7 @@ func writeEvidence(id, tier string, start time.Time, plan *Plan, results []*sym.
 	}
 	cov["evaluations"] = obligations
 	cov["distinct_nontrivial"] = obligations - trivial
-	cov["rule"] = "one evaluation = one assertion instance (assert id x feasible path of the symbolic executor) decided by the SMT solver or by term rewriting; non-trivial = the negated assertion was sent to the solver (its condition did not fold to a constant); instances are distinct because each belongs to a different path condition"
+	cov["rule"] = "one evaluation = one assertion instance (assert id x feasible path of the symbolic executor) decided by the SMT solver or by term rewriting; non-trivial = the negated assertion was sent to the solver, or it folded to true on a path whose condition contains at least one solver-decided literal (trivial = folded on a path made of harness choices only); instances are distinct because each belongs to a different path condition"
 	cov["samples"] = samples
 	cov["obligations"] = obligations
 	cov["discharged"] = discharged
@@ -95,6 +95,9 @@ func writeEvidence(id, tier string, start time.Time, plan *Plan, results []*sym.
 	cov["functions_encoded_repo"] = repoFuncs
 	cov["harnesses"] = harnesses
 	cov["assert_sites_reached"] = reached
+	if inconclusive == nil {
+		inconclusive = []string{}
+	}
 	cov["inconclusive"] = inconclusive
 	cov["known_findings_hit"] = len(known)
 	cov["exhaustive"] = false
